@@ -2,6 +2,7 @@ import AwModel.Store.Sqlite
 import AwModel.Store.Memory
 import AwModel.Store.Peewee
 import AwModel.Store.HbLoop
+import AwModel.Store.Codec
 import Driver.Proto
 /-!
 Driver area `store <backend> <op> …` (stateful). D = String (canonical JSON text of the data).
@@ -106,10 +107,10 @@ def handle (s : DrvSt) : List String → DrvSt × String
     | "sqlite", "get" => run do
         let b ← pStr; let lim ← pInt; let st ← pOpt pInt; let en ← pOpt pInt
         let (st, en) := roundWin st en
-        pure (ok s (showList showEv (Sqlite.getEvents s.sq b lim st en)))
+        pure (ok s (showList showEv ((Sqlite.getEvents s.sq b lim st en).map Codec.sqliteDecode)))
     | "sqlite", "getbyid" => run do
         let b ← pStr; let i ← pInt
-        pure (ok s (showOpt showEv (Sqlite.getEvent s.sq b i)))
+        pure (ok s (showOpt showEv ((Sqlite.getEvent s.sq b i).map Codec.sqliteDecode)))
     | "sqlite", "count" => run do
         let b ← pStr; let st ← pOpt pInt; let en ← pOpt pInt
         pure (ok s (toString (Sqlite.getEventcount s.sq b st en)))
@@ -118,7 +119,7 @@ def handle (s : DrvSt) : List String → DrvSt × String
         match Sqlite.hbLoop pt b s.sq l with
         | .ok q => pure (ok { s with sq := q } "")
         | .error e => pure (er e)
-    | "sqlite", "dump" => run (pure (ok s (showDump (Sqlite.bucketsOf s.sq) (Sqlite.view s.sq))))
+    | "sqlite", "dump" => run (pure (ok s (showDump (Sqlite.bucketsOf s.sq) (fun b => (Sqlite.view s.sq b).map (fun p => (p.1, p.2.map Codec.sqliteDecode))))))
     | "sqlite", "lookup" => run do
         let b ← pStr
         pure (if (Sqlite.bucketsOf s.sq).any (fun p => p.1 = b) then ok s "" else er .keyError)
@@ -243,13 +244,13 @@ def handle (s : DrvSt) : List String → DrvSt × String
     | "peewee", "get" => run do
         let b ← pStr; let lim ← pInt; let st ← pOpt pInt; let en ← pOpt pInt
         let (st, en) := roundWin st en
-        match Peewee.getEvents s.pw b lim st en with
+        match Peewee.getEvents s.pw b lim st en Codec.peeweeDecode with
         | .ok l => pure (ok s (showList showEv l))
         | .error e => pure (er e)
     | "peewee", "getbyid" => run do
         let b ← pStr; let i ← pInt
         match Peewee.getEvent s.pw b i with
-        | .ok o => pure (ok s (showOpt showEv o))
+        | .ok o => pure (ok s (showOpt showEv (o.map Codec.peeweeDecode)))
         | .error e => pure (er e)
     | "peewee", "count" => run do
         let b ← pStr; let st ← pOpt pInt; let en ← pOpt pInt
@@ -261,7 +262,7 @@ def handle (s : DrvSt) : List String → DrvSt × String
         match Peewee.hbLoop pt b s.pw l with
         | .ok q => pure (ok { s with pw := q } "")
         | .error e => pure (er e)
-    | "peewee", "dump" => run (pure (ok s (showDump (Peewee.bucketsOf s.pw) (Peewee.view s.pw))))
+    | "peewee", "dump" => run (pure (ok s (showDump (Peewee.bucketsOf s.pw) (fun b => (Peewee.view s.pw b).map (fun p => (p.1, p.2.map Codec.peeweeDecode))))))
     | "peewee", "lookup" => run do
         let b ← pStr
         pure (if (Peewee.bucketsOf s.pw).any (fun p => p.1 = b) then ok s "" else er .keyError)
